@@ -392,10 +392,14 @@ def users_job(interp, c, case):
     c.prove(s_and(s1[M.species2index["B"]] == k * A + 1, s2[M.species2index["B"]] == k * A + V, s1[0] == A, s2[0] == A),
             "general assignment rule evaluates its right-hand side with volume = 1 / V", info={"sig": "rule modes", "what": "rule"})
     sdv = T.ns["StateDependentVolume"]()
-    sdv.setup(c.real("Vd", lo=0), c.real("noise", lo=0), "k*A/(1 + B)", M)
+    sdv.setup(c.real("Vd", lo=0), c.real("noise", lo=0), "k*A/(1 + B) + 0.25*t", M)
     step = sdv.get_volume_step(ptr(interp, sv), ptr(interp, pv), t, V, dt)
-    c.prove(step == (s_exp(k * A / (1 + B) * dt) - 1) * V, "state-dependent growth law evaluates the written rate expression",
-            info={"sig": "growth law", "what": "growth"})
+    from fractions import Fraction as _F
+    ok = c.prove(step == (s_exp((k * A / (1 + B) + _F(1, 4) * t) * dt) - 1) * V,
+                 "state-dependent growth law evaluates the written rate expression at the current state and time",
+                 info={"sig": "growth law", "what": "growth"})
+    if ok is False:
+        c.failures[-1]["replay"] = {"kind": "growth", "text": "k*A/(1 + B) + 0.25*t"}
 
 
 def reject_job(interp, c, case):
